@@ -21,7 +21,8 @@ PARTIAL = ["maximum-weight spanning tree optimality (networkx) is compared per c
 RULE = ("white-box: a StructureScore whose local scores are a random dyadic table (tie-free deltas) over 3-5 variables with random start DAG, "
         "fixed/black/white lists, max_indegree, tabu_length, epsilon, max_iter -> identical final DAG required; black-box: real scores on data; "
         "exhaustive search on 2-4 variables; Chow-Liu with synthetic distinct weights for every root; non-trivial = at least one move made; "
-        "distinct = case JSON")
+        "distinct = case JSON"
+        " Also: edge lists as list / set / tuple / generator / iterator / zip, estimator reused with another score object, start graphs with their own node order, tables that force an undo.")
 ASSUMPTIONS = ["start graphs satisfy the black list; epsilon >= 0"]
 BUDGET_QUICK = 90
 LEVEL_TEXT = ("Kernel-checked: applying a legal add / remove / flip (guarded by the has_path tests of the model) keeps the graph acyclic, hence "
